@@ -43,7 +43,7 @@ RULE = ('engine: every position-tagged stream of length n over a 3-symbol pointe
 REQUIRED_CLAUSES = ['R-region-exactness', 'V-verdict-invariance', 'Q-queries-pure', 'E-engine-slice-semantics',
                     'W-wrapper-verdict-invariance', 'actual-size']
 ASSUMPTIONS = ['ground truth for regions is the presented stream itself (slice semantics)',
-               'known findings F1 F2 F3 K11 are attributed by input-only predicates (vlib/known.py, imagegen.vhdx_backward)']
+               'known findings F1 F3 K11 are attributed by input-only predicates (vlib/known.py, imagegen.vhdx_backward)']
 SHARDS = {'quick': 8, 'thorough': 16}
 MIN_DISTINCT = {'quick': 2000, 'thorough': 20000}
 LEVEL_TEXT = ('Exploration with exact oracles: region contents are compared with the stream slice after every chunk, '
@@ -308,8 +308,6 @@ def known_for_inspector(name, data):
             return 'F1'
         if known.f3_short_footer_vmdk(data):
             return 'F3'
-    if name == 'vhdx' and ig.vhdx_backward(data):
-        return 'F2'
     return None
 
 
@@ -474,9 +472,13 @@ CANARIES = [
     # F1: text descriptor; a path-naming extent after the first 512 bytes
     ('F1', {'gen': 'vmdk_text', 'params': {'extra': [['# ' + 'x' * 70, True]] * 8 + [['RW 2048 FLAT "/etc/passwd" 0', False]]}},
      ['vmdk'], [['giant', [], [], False], ['fixed-1', 'ALL1', [], False], ['fixed-512', 'F512', [], False]], False),
-    # F2: metadata region pointer below the end of the region table
-    ('F2', {'gen': 'vhdx', 'params': {'meta_off': 200 * 1024, 'item_off': 0x10000, 'size': 12345678}},
-     ['vhdx'], [['giant', [], [], False], ['fixed-4096', 'F4096', [], False]], False),
+    # formerly F2 (repaired): backward pointers - metadata region inside the headers, item inside the entry table
+    ('-', {'gen': 'vhdx', 'params': {'meta_off': 200 * 1024, 'item_off': 0x10000, 'size': 12345678}},
+     ['vhdx'], [['giant', [], [], False], ['fixed-4096', 'F4096', [], False], ['fixed-65536', 'F65536', [], False]], True),
+    ('-', {'gen': 'vhdx', 'params': {'meta_off': 256 * 1024, 'item_off': 40, 'n_pad_meta': 3, 'size': 12345678}},
+     ['vhdx'], [['giant', [], [], False], ['fixed-17', 'F17', [], False], ['fixed-4096', 'F4096', [], False]], True),
+    ('-', {'gen': 'vhdx', 'params': {'meta_off': 100, 'item_off': 0x10000, 'size': 5}},
+     ['vhdx'], [['giant', [], [], False], ['fixed-512', 'F512', [], False]], True),
     # F3: footer announced on a stream of 1536..1598 bytes
     ('F3', {'gen': 'vmdk', 'params': {'footer': True, 'desc_num': 1, 'min_total': 0, 'total': 1560}},
      ['vmdk'], [['giant', [], [], False], ['fixed-1', 'ALL1', [], False]], False),
@@ -516,6 +518,8 @@ def run(ctx):
         fmt = rng.choice(ic.FORMATS)
         if k < 0.12:
             spec = ic.unstructured(rng)
+        elif k > 0.97:
+            spec = ic.vhdx_backward(rng)
         else:
             spec = ic.wellformed(rng, fmt, small=ctx.quick or rng.random() < 0.8)
         seed_for_case = rng.getrandbits(48)
